@@ -2,10 +2,14 @@ package vf
 
 import (
 	"encoding/json"
+	"errors"
 	"fmt"
 	"os"
 	"runtime/debug"
 	"testing"
+	"time"
+
+	"github.com/klev-dev/klevdb"
 
 	"pgregory.net/rapid"
 )
@@ -17,6 +21,13 @@ func runHist(t *testing.T, prof string) {
 		t.Fatalf("unknown profile %s", prof)
 	}
 	st := NewStats(p.Prop)
+	if knownProbeHits != nil {
+		for k, v := range knownProbeHits.Known {
+			st.Known[k] += v
+			st.KnownWhat[k] = knownProbeHits.KnownWhat[k]
+		}
+		knownProbeHits = nil
+	}
 	defer st.Write()
 	var lastCase *HCase
 	var lastViol *Violation
@@ -89,7 +100,43 @@ func TestC02(t *testing.T) { runHist(t, "C02") }
 func TestC03(t *testing.T) { runHist(t, "C03") }
 func TestC04(t *testing.T) { runHist(t, "C04") }
 func TestC09(t *testing.T) { runHist(t, "C09") }
-func TestC10(t *testing.T) { runHist(t, "C10") }
+func TestC10(t *testing.T) {
+	probePreEpoch()
+	runHist(t, "C10")
+}
+
+// probePreEpoch is the regression probe of known finding F1 (C10): message times before the Unix epoch.
+// The generator excludes such times from time-indexed histories by construction (the index clamps
+// timestamps at 0 in every code path); this fixed input shows whether the finding is still there.
+func probePreEpoch() {
+	st := NewStats("C10")
+	root := MkScratch("vf-f1-")
+	defer os.RemoveAll(root)
+	l, err := klevdb.Open(root, klevdb.Options{TimeIndex: true})
+	if err != nil {
+		return
+	}
+	defer l.Close()
+	if _, err := l.Publish([]klevdb.Message{{Time: time.UnixMicro(-5), Key: []byte("a")}, {Time: time.UnixMicro(-3), Key: []byte("b")}}); err != nil {
+		return
+	}
+	m, err := l.GetByTime(time.UnixMicro(-4))
+	_, err2 := l.GetByTime(time.UnixMicro(-2))
+	if (err == nil && m.Offset == 1) && errors.Is(err2, klevdb.ErrNotFound) {
+		return // repaired: nothing to report
+	}
+	const sig = "time|pre-epoch-message-times"
+	if k := MatchKnown("C10", sig); k != nil {
+		st.KnownHit(k.ID, k.What)
+		knownProbeHits = st
+		return
+	}
+	fmt.Printf("pre-epoch probe: GetByTime(-4) -> offset %d,%v; GetByTime(-2) -> %v\n", m.Offset, err, err2)
+	fmt.Printf("VIOLATION property=C10 replay=%s\n", WriteReplay("C10", "probe", &Violation{Oracle: "time", Sig: sig, Msg: "messages at -5us,-3us: GetByTime(-4us) must return offset 1 and GetByTime(-2us) ErrNotFound"}, map[string]any{"times_us": []int64{-5, -3}, "queries_us": []int64{-4, -2}}))
+	os.Exit(1)
+}
+
+var knownProbeHits *Stats
 func TestC11(t *testing.T) { runHist(t, "C11") }
 func TestC12(t *testing.T) { runHist(t, "C12") }
 func TestC13Hist(t *testing.T) { runHist(t, "C13") }
